@@ -3,13 +3,21 @@ NOTES = ("Contract-based deductive verification: Verus on functions extracted me
          "Kani/CBMC on the real crates (scratch copy + add-only cfg(kani) overlay). exit 2 = undecided (lost anchor, "
          "timeout, unsupported construct), never a VIOLATION. See DESIGN.md.")
 ENGINES = [
-    {"name": "E1-verus", "path": "engine/rsx.py, engine/verus.py, units/, contracts/", "serves_properties": ["C03"],
+    {"name": "E1-verus", "path": "engine/rsx.py, engine/verus.py, units/, contracts/", "serves_properties": ["C01", "C03"],
      "kind_free_text": "mechanical extraction + spec splicing -> single-file Verus (z3); unbounded proofs"},
     {"name": "E2-kani", "path": "engine/overlay.py, contracts/*/kani*.rs", "serves_properties": [],
      "kind_free_text": "cargo kani (CBMC) on a scratch copy of the real crates with an add-only cfg(kani) overlay"},
 ]
 PENDING = "check not built yet (framework under construction; see DESIGN.md section 5 for the planned decision)"
 CHECKS = {
+    "C01": {
+        "engine": "E1-verus",
+        "category": "proof",
+        "text": "Verus proves, for every index type and all store contents, that insert/remove of the four in-memory stores (real function text, extracted each run) implement set insertion/removal on the term-level set of triples/quads, return the exact changed-flag, keep the 3/6 secondary indexes coherent, leave the quad sets untouched when the term index is full, and do nothing for unknown terms.",
+        "design_ref": "DESIGN.md 4.1, 4.2, 5 (C01)",
+        "note": "Trusted: Verus/z3, vstd BTreeSet specs, lawful Ord on index arrays, stand-in TermIndex contract (the real SimpleTermIndex is only checked against it by bounded Kani), R0/R2 rewrites. Pattern queries and bulk defaults are not under contract (stated in evidence.not_covered).",
+        "technique": "deductive verification (Verus contracts + data-structure invariant + set lemmas) of mechanically extracted code",
+    },
     "C03": {
         "engine": "E1-verus",
         "category": "proof",
@@ -19,4 +27,4 @@ CHECKS = {
         "technique": "deductive verification (Verus pre/postconditions, loop invariants, lemmas) of mechanically extracted code",
     },
 }
-NOT_APPLICABLE = {p: PENDING for p in ["C01", "C02", "C04", "C05", "C06", "C07", "C08", "C09", "C10", "C11", "C12", "C13", "C14", "C15", "C16", "C17", "C18", "C19", "C20"]}
+NOT_APPLICABLE = {p: PENDING for p in ["C02", "C04", "C05", "C06", "C07", "C08", "C09", "C10", "C11", "C12", "C13", "C14", "C15", "C16", "C17", "C18", "C19", "C20"]}
